@@ -3,11 +3,14 @@ package an
 import (
 	"fmt"
 	"go/ast"
+	"go/build/constraint"
 	"go/token"
 	"go/types"
 	"os"
 	"path/filepath"
+	"runtime"
 	"sort"
+	"strconv"
 	"strings"
 
 	"golang.org/x/tools/go/packages"
@@ -59,6 +62,7 @@ type Program struct {
 
 	Files      []string // non-test .go files analysed (relative to Dir)
 	Unanalysed []string // non-test .go files of the module no loaded package includes
+	NeverBuilt []string // … of which: excluded on every platform by a Go release constraint the installed toolchain does not meet
 	NumFuncs   int
 	NumBlocks  int
 	NumInstrs  int
@@ -185,6 +189,12 @@ func Load(dir string, cfg Config) (*Program, error) {
 		}
 		rel, _ := filepath.Rel(dir, path)
 		if !seenFile[rel] {
+			if excludedByRelease(path) {
+				// `//go:build !go1.16` and the like: no build with the installed toolchain, on
+				// any platform, compiles this file (it is the other half of a version pair)
+				p.NeverBuilt = append(p.NeverBuilt, rel)
+				return nil
+			}
 			p.Unanalysed = append(p.Unanalysed, rel)
 		}
 		return nil
@@ -208,6 +218,91 @@ func Load(dir string, cfg Config) (*Program, error) {
 		}
 	}
 	return p, nil
+}
+
+// excludedByRelease: the file's //go:build line is false for every choice of platform and
+// custom tags, because of `go1.N` release tags alone, with the toolchain this analysis runs
+// with (the one that builds and tests the repository here).
+func excludedByRelease(path string) bool {
+	src, err := os.ReadFile(path)
+	if err != nil {
+		return false
+	}
+	var expr constraint.Expr
+	for _, line := range strings.Split(string(src), "\n") {
+		t := strings.TrimSpace(line)
+		if t == "" || strings.HasPrefix(t, "//") && !constraint.IsGoBuild(t) {
+			continue
+		}
+		if constraint.IsGoBuild(t) {
+			if x, err := constraint.Parse(t); err == nil {
+				expr = x
+			}
+			break
+		}
+		break // the package clause or anything else: no constraint
+	}
+	if expr == nil {
+		return false
+	}
+	minor := 0
+	if v := strings.TrimPrefix(runtime.Version(), "go1."); v != runtime.Version() {
+		for _, c := range v {
+			if c < '0' || c > '9' {
+				break
+			}
+			minor = minor*10 + int(c-'0')
+		}
+	}
+	if minor == 0 {
+		return false
+	}
+	// three-valued evaluation: 1 true, 0 false, -1 depends on the platform or on custom tags
+	var ev func(x constraint.Expr) int
+	ev = func(x constraint.Expr) int {
+		switch y := x.(type) {
+		case *constraint.TagExpr:
+			if strings.HasPrefix(y.Tag, "go1.") {
+				n, err := strconv.Atoi(strings.TrimPrefix(y.Tag, "go1."))
+				if err != nil {
+					return -1
+				}
+				if n <= minor {
+					return 1
+				}
+				return 0
+			}
+			return -1
+		case *constraint.NotExpr:
+			switch ev(y.X) {
+			case 1:
+				return 0
+			case 0:
+				return 1
+			}
+			return -1
+		case *constraint.AndExpr:
+			a, b := ev(y.X), ev(y.Y)
+			if a == 0 || b == 0 {
+				return 0
+			}
+			if a == 1 && b == 1 {
+				return 1
+			}
+			return -1
+		case *constraint.OrExpr:
+			a, b := ev(y.X), ev(y.Y)
+			if a == 1 || b == 1 {
+				return 1
+			}
+			if a == 0 && b == 0 {
+				return 0
+			}
+			return -1
+		}
+		return -1
+	}
+	return ev(expr) == 0
 }
 
 // InModule reports whether the SSA package belongs to the module under analysis.
